@@ -65,6 +65,16 @@ struct Outcome {
     sig = s;
     msg = m;
   }
+  // a failure that falls in the trigger class of a finding listed in
+  // known_findings.json: excluded from the search (counted), reported as
+  // KNOWNFAIL by --replay so the driver can print KNOWN-FINDING for it
+  bool knownFail = false;
+  std::string knownId;
+  void known(const std::string& findingId, const std::string& s, const std::string& m = "") {
+    if (!ok || knownFail) return;
+    knownFail = true; knownId = findingId; sig = s; msg = m;
+    excluded = true; excluded_rule = "known-finding:" + findingId;
+  }
   void cls(const std::string& c) { classes.push_back(c); }
   void exclude(const std::string& rule) {
     excluded = true;
